@@ -23,14 +23,15 @@ JudgeProto(r, ln) ==
       res   == RangeOf(r.res)
       \* the property: refused with an explicit error, or exactly what the standard selects
       l1    == (r.err # "" /\ r.err # "panic") \/ (r.err = "" /\ res = truth)
-      c     == Cfg(0, FALSE, PresAttrs(idx))
+      co    == Cfg(0, FALSE, PresAttrs(idx))     \* code before the repair b91e119
       wr    == IF r.kind = "ldap" THEN LdapWrapped(r.pf) ELSE ScimWrapped(r.pf)
-      ans   == L2Answer(wr, db, idx, c, r.kind = "ldap")
-      ansF  == L2Answer(wr, db, idx, Cfg(0, TRUE, PresAttrs(idx)), r.kind = "ldap")
+      ans   == L2Answer(wr, db, idx, Cfg(0, TRUE, PresAttrs(idx)), r.kind = "ldap")   \* current code
+      anso  == L2Answer(wr, db, idx, co, r.kind = "ldap")
       big   == IF r.kind = "ldap" THEN LdapTooBig(r.pf) ELSE ScimTooBig(r.pf)
       expl(a) == IF big \/ a.rej THEN r.err # "" ELSE (r.err = "" /\ a.s = res)
-      l2    == expl(ans) \/ expl(ansF)
-      sig   == ProtoSig(r.kind, r.pf, wr, db, idx, c) \o (IF l2 THEN "/l2" ELSE "/nol2")
+      l2    == expl(ans) \/ expl(anso)
+      \* class of the divergence; for the (repaired) C01 classes "/l2" means the pre-repair code predicts this very answer
+      sig   == ProtoSig(r.kind, r.pf, wr, db, idx, co) \o (IF l2 THEN "/l2" ELSE "/nol2")
   IN /\ (l1 \/ (Tally(21) /\ PrintT(<<"L1FAIL", "C41", ln, sig>>)))
      /\ (l2 \/ (Tally(22) /\ PrintT(<<"L2DRIFT", "C41", ln>>)))
 Judge == l <= Len(Rec) => (IF Rec[l].a = "proto" THEN JudgeProto(Rec[l], l) ELSE TRUE)
